@@ -13,7 +13,7 @@ from .common import DT, CT, ckey
 
 P = "C07"
 EXPLANATION = (
-    "Static rules D7.1-D7.6 (DESIGN.md section 5, C07): every class with a CIP type code is compared, after constant "
+    "Static rules D7.1-D7.7 (DESIGN.md section 5, C07): every class with a CIP type code is compared, after constant "
     "folding through the MRO, with the independent table spec/cip_types.json (code, name, width, little-endian struct "
     "format, signedness, int/float kind); BOOL constants; string prefix types and character widths; bit-string host types "
     "and LSB-first bit order on both sides; the DataTypes name->class->code table; element/member concatenation order of "
@@ -448,3 +448,12 @@ def _bits_loop(node, off_name, bit_name):
 
 def _bound_to_offsets(func, name):
     return any(isinstance(n, ast.Assign) and atom_name(n.targets[0]) == name and atom_name(n.value) == "cls._offsets[member]" for n in walk(func))
+
+
+@rule(P, "D7.7", "T-WITNESS", floor=15)
+def d7_7(ctx):
+    """String, bit-string and PCCC string codecs produce / accept the bytes of the wire format on witness values - the
+    obligations of D6.9 (which also checks the round trip), owned here for 'the bytes produced are the CIP wire layout'."""
+    from .C06 import d6_9
+
+    d6_9(ctx)
